@@ -59,23 +59,27 @@ type placement struct {
 	// sharedPrefix: the set is built with NewFileSet(list...) from a caller-owned slice with spare capacity, the file is
 	// added, and then the caller builds a SECOND set from the same slice and adds a different file to that one
 	sharedPrefix bool
+	// following: lengths of files added AFTER the file under test (a lookup must not depend on being the last file)
+	following []int
 }
 
 var placements = []placement{
-	{"alone", nil, false, false, false},
-	{"after an empty file", []int{0}, false, false, false},
-	{"after a 3-byte file", []int{3}, false, false, false},
-	{"after two empty files", []int{0, 0}, false, false, false},
-	{"after files of 2 and 5 bytes", []int{2, 5}, false, false, false},
-	{"after a 998-byte file", []int{998}, false, false, false},
-	{"after a 3-byte file, reader created before the file was added", []int{3}, true, false, false},
-	{"registered after a 5-byte file, reader created, then registered again alone in a fresh set", []int{5}, false, true, false},
-	{"after files of 2 and 3 bytes passed as a caller-owned list with spare capacity, from which the caller then builds another set", []int{2, 3}, false, false, true},
+	{"alone", nil, false, false, false, nil},
+	{"after an empty file", []int{0}, false, false, false, nil},
+	{"after a 3-byte file", []int{3}, false, false, false, nil},
+	{"after two empty files", []int{0, 0}, false, false, false, nil},
+	{"after files of 2 and 5 bytes", []int{2, 5}, false, false, false, nil},
+	{"after a 998-byte file", []int{998}, false, false, false, nil},
+	{"after a 3-byte file, reader created before the file was added", []int{3}, true, false, false, nil},
+	{"registered after a 5-byte file, reader created, then registered again alone in a fresh set", []int{5}, false, true, false, nil},
+	{"after files of 2 and 3 bytes passed as a caller-owned list with spare capacity, from which the caller then builds another set", []int{2, 3}, false, false, true, nil},
+	{"second of four files (3 bytes before; 2 and 4 bytes after)", []int{3}, false, false, false, []int{2, 4}},
+	{"third of six files", []int{1, 2}, false, false, false, []int{0, 3, 1}},
 	// base offsets at the widths a packed cache key or a narrowed integer might assume (stub files: no data is allocated)
-	{"after a 65535-byte file", []int{65535}, false, false, false},
-	{"after a 2 GiB file", []int{1<<31 - 1}, false, false, false},
-	{"after files of 3 bytes and 4 GiB", []int{3, 1 << 32}, false, false, false},
-	{"after files of 3 bytes and 8 GiB", []int{3, 1 << 33}, false, false, false},
+	{"after a 65535-byte file", []int{65535}, false, false, false, nil},
+	{"after a 2 GiB file", []int{1<<31 - 1}, false, false, false, nil},
+	{"after files of 3 bytes and 4 GiB", []int{3, 1 << 32}, false, false, false, nil},
+	{"after files of 3 bytes and 8 GiB", []int{3, 1 << 33}, false, false, false, nil},
 }
 
 // stubFile stands in for a huge preceding file: it only has a length.
@@ -94,6 +98,27 @@ func (f *stubFile) SetOffset(o int)               { f.offset = o }
 // returns the file, a reader on it and the expected base offset computed from
 // the documented layout (first base 1, files separated by one unused position).
 func place(pl placement, name string, content []byte) (*parsley.FileSet, *text.File, *text.Reader, int) {
+	fs, f, r, base := place0(pl, name, scratchCopy(content))
+	scribble()
+	return fs, f, r, base
+}
+
+// The bytes handed to text.NewFile live in a scratch buffer of the harness that is overwritten as soon as the file
+// exists (a caller reading documents through one reused buffer does the same): the file must hold its own copy.
+var scratch []byte
+
+func scratchCopy(content []byte) []byte {
+	scratch = append(scratch[:0], content...)
+	return scratch
+}
+
+func scribble() {
+	for i := range scratch {
+		scratch[i] = '#'
+	}
+}
+
+func place0(pl placement, name string, content []byte) (*parsley.FileSet, *text.File, *text.Reader, int) {
 	if pl.sharedPrefix {
 		list := make([]parsley.File, 0, len(pl.preceding)+4)
 		base := 1
@@ -126,6 +151,9 @@ func place(pl placement, name string, content []byte) (*parsley.FileSet, *text.F
 		return fs, f, r, base
 	}
 	fs.AddFile(f)
+	for i, l := range pl.following {
+		fs.AddFile(text.NewFile(fmt.Sprintf("post%d", i), []byte(strings.Repeat("y", l))))
+	}
 	if pl.reRegister {
 		r := text.NewReader(f)
 		return parsley.NewFileSet(f), f, r, 1
